@@ -22,10 +22,18 @@ func (c *FnCtx) refTag(t types.Type) (string, bool) {
 }
 
 func (c *FnCtx) tagRef(st *State, r Term) {
-	if !c.e.typedRefs || r.T == nil {
+	if !c.typedRefs() || r.T == nil {
 		return
 	}
 	if tag, ok := c.refTag(r.T); ok {
 		st.assume(sEq(sApp("dyntype", r.S), tag))
 	}
+}
+
+// typedRefs: the function being verified belongs to a package that declared `typedrefs`.
+func (c *FnCtx) typedRefs() bool {
+	if !c.e.typedRefs || c.fi == nil || c.fi.Pkg == nil {
+		return false
+	}
+	return c.e.typedPkgs[c.fi.Pkg.PkgPath]
 }
